@@ -178,6 +178,18 @@ def run(chk):
             model = "nosv" if kind == 2 else "nanos6"
             s = gen_hist.base_scenario(r, tables, models=["ovni", model])
             gen_hist.task_history(r, s, tables, model, build, wrong_num=0)
+        if kind in (0, 1) and r.chance(1, 3):
+            # mark types that are defined but (mostly) never used: their rows exist in the PRV, so the PCF must declare them
+            for pos in range(len(s.threads)):
+                s.marks[pos] = [{"type": 1, "stack": True, "title": "Phase", "labels": [(1, "one")]},
+                                {"type": 7, "stack": False, "title": "Error", "labels": []}]
+        if r.chance(1, 3) and s.events:
+            # events that change no channel (unordered-region markers, bursts) after the end of a thread: they still
+            # move the time, so the header duration is their time
+            last = max(e[1] for e in s.events)
+            t_ = r.below(len(s.threads))
+            for j, mcv in enumerate(r.choice([["OU[", "OU]"], ["OB."], ["OU[", "OB.", "OU]"]])):
+                s.events.append((t_, last + 7 * (j + 1), mcv, b""))
         if kind in (0, 1) and r.chance(1, 2):
             # MPI ranks in a cyclic placement over the looms, the process with the lowest pid of the first loom not
             # holding its lowest rank: looms are ordered by their lowest rank, processes of a loom by rank
